@@ -282,15 +282,17 @@ def _check_nested_predicate(seed, i):
     names = ["q", "p"]
     def ref():
         return "${%s}" % rng.choice(names)
-    inner = f"instance('l9')/root/item[name = {ref()}]/label"
+    # the instance id in single quotes, in double quotes, or with white space inside the parentheses: the same XPath
+    call = rng.choice(["instance('l9')", "instance('l9')", 'instance("l9")', "instance( 'l9' )", 'instance( "l9")'])
+    inner = f"{call}/root/item[name = {ref()}]/label"
     shape = rng.choice(["nested", "nested", "two", "plain"])
     n_in = 1
     if shape == "nested":
         tail = rng.random() < 0.7
-        expr = f"instance('l9')/root/item[x = {inner}" + (f" and name = {ref()}" if tail else "") + "]/label"
+        expr = f"{call}/root/item[x = {inner}" + (f" and name = {ref()}" if tail else "") + "]/label"
         n_in += 1 if tail else 0
     elif shape == "two":
-        expr = f"{inner} + instance('l9')/root/item[x = {ref()}]/label"
+        expr = f"{inner} + {call}/root/item[x = {ref()}]/label"
         n_in += 1
     else:
         expr = inner
